@@ -80,4 +80,11 @@ async def make_maildir(base, layout='++', users=(('alice', 'pwalice', ()), ('bob
 
 
 def rmtree(path):
-    shutil.rmtree(path, ignore_errors=True)
+    try:
+        shutil.rmtree(path, ignore_errors=True)
+    except RecursionError:
+        pass
+    if os.path.lexists(path):
+        # shutil recurses once per level: a hierarchy a thousand levels deep is beyond it
+        import subprocess
+        subprocess.run(['rm', '-rf', '--', path], check=False)
